@@ -4,6 +4,7 @@
      write <x..,x..>         -> o=<hex of all blocks> nl=<every block ends with NL>   (repaired writer)
      write0 <x..,x..>        -> same for the pinned writer
      conc <x..,x..;x..;...>  -> writers one after the other; the lines of the output sorted
+     spec x<hex>             -> 1 iff the word is in the language of addr_spec (executable matcher)
      inclcex -               -> "included" or cex=<hex>: addr_spec ⊆ group 1 of the generated full pattern *)
 From Coq Require Import List NArith Bool Arith String.
 From Snow Require Import Lib.Wire Model.Regex Model.RegexIncl Model.Scrub Model.SafelogPinned Gen.SafelogPatterns.
@@ -62,6 +63,8 @@ Definition run (args : list bytes) : bytes :=
             let ls := fst (split_lines (List.concat blocks)) in
             bs "o=" ++ hex_or_dash (List.concat (sort_lines ls)) ++ bs " nl=" ++ bool_print (forallb ends_nl blocks)
         | None => ERR_BADCASE end
+      else if beq op (bs "spec") then
+        match payload_parse a with Some b => bool_print (matchb addr_spec b) | None => ERR_BADCASE end
       else if beq op (bs "inclcex") then
         match full_patterns with
         | [full] =>
